@@ -10,6 +10,9 @@ extracted Coq model / oracles together with what predict() returned in its three
 sqrt is an oracle: standard deviations are compared through their (exact) squares.
 Second stream: the 'd' acquisition variants receive exactly the epistemic standard deviation (1805 ok_lcb for LCB/LCBd,
 metamorphic equality with a stub surrogate returning (mean, std_ep) for EI/PI/MES; predict_epistemic_std itself).
+Stream lock_certificate: static certificate that every update of the shared accumulators in the joblib worker functions is inside
+`with lock:` (see lock_certificate), plus a stress case (50 cheap trees, 300 000 query rows, n_jobs 4 and 8, repeated) whose selected
+rows are judged by the same Coq oracles against the oracle from estimators_ and against the n_jobs=1 answer.
 Third stream (forest_session, step-wise): ONE forest object and ONE query buffer through a script of operations - buffer
 refilled in place, returned arrays edited by the caller, refit, warm start (estimators_ extended in place),
 set_params(n_estimators=...) WITHOUT a fit (hyper-parameter and fitted trees disagree), estimators_ pruned / merged by hand, set_params /
@@ -42,6 +45,11 @@ TRUSTED = [
     "that no verdict depends on s is proved: C18_scale_equivariant (model), C18_oracle/corr/same/lcb_scale_invariant (oracles)",
     "an attempt of a case that raises / exceeds 90 s is repeated up to 3 times and reported only if it fails every time (wrong values are "
     "never retried; retries show as 'retried_after:*' in the histogram)",
+    "ATOMICITY: the theorems describe a sum over the trees in any order (C18_order_irrelevant, C18_chunks_irrelevant); that each worker "
+    "thread's `out[i] += ...` on the shared accumulators is atomic (inside `with lock:` on one threading.Lock() shared by all jobs) is "
+    "established on every run by the static certificate of stream lock_certificate (ast of the current forest.py, fail closed: an "
+    "unrecognised shape is a correspondence break followed by a stress search), not by the Coq model; threading.Lock mutual exclusion "
+    "and joblib joining all jobs before Parallel returns are trusted",
     "joblib threading backend (require='sharedmem') runs every delayed call exactly once; scipy.stats.norm and the global NumPy RNG "
     "(seeded identically for both sides) in the EI/PI/MES metamorphic comparison",
 ]
@@ -554,6 +562,246 @@ def shrink_session(case):
             yield c
 
 
+# ---------------------------------------------------------------- atomicity of the accumulation: static certificate + stress
+# The theorems (C18_order_irrelevant / C18_chunks_irrelevant) are about a SUM over the trees taken in any order.  With
+# n_jobs > 1 the code realises that sum by worker threads doing `out[i] += ...` on shared arrays; numpy releases the GIL inside
+# large element-wise loops, so an update outside the lock can be lost.  That every update is atomic is established per run by
+# this certificate (ast of the CURRENT forest.py, fail closed), not by the Coq model.
+def lock_certificate(repo_src=None):
+    """(ok, problems, info).  Requirements, for every function of skopt/learning/forest.py that is handed to joblib
+    (`delayed(f)(...)` inside a `Parallel(...)(...)` call):
+      * f is a module-level function with parameters named `out` and `lock`;
+      * every occurrence of `out`, and of any name bound to something computed from `out`, lies inside a `with lock:` block of f
+        (so every read-modify-write of the shared accumulators is inside the critical section);
+      * at the call site, the `lock` argument is a name bound exactly once in the caller, to `threading.Lock()` (or RLock), before
+        the Parallel call, the same object for all trees, and Parallel is asked for shared memory (require="sharedmem");
+      * f does not rebind `lock`.
+    A module without any Parallel call has nothing to certify.  Anything else is an unrecognised shape -> not certified."""
+    import ast
+    import os
+
+    if repo_src is None:
+        import deephyper.skopt.learning.forest as F
+
+        path = F.__file__
+    else:
+        path = os.path.join(repo_src, "deephyper", "skopt", "learning", "forest.py")
+    tree = ast.parse(open(path).read())
+    funcs = {n.name: n for n in tree.body if isinstance(n, ast.FunctionDef)}
+    problems, info = [], dict(file=path, parallel_sites=0, certified=[])
+
+    def names_in(node):
+        return {n.id for n in ast.walk(node) if isinstance(n, ast.Name)}
+
+    def check_worker(fn):
+        params = [a.arg for a in fn.args.posonlyargs + fn.args.args + fn.args.kwonlyargs]
+        if "out" not in params or "lock" not in params or fn.args.vararg or fn.args.kwarg:
+            return ["%s: parameters %r - expected explicit `out` and `lock`" % (fn.name, params)]
+        probs = []
+        # names tainted by the shared accumulators (fixpoint over simple bindings)
+        tainted = {"out"}
+        changed = True
+        while changed:
+            changed = False
+            for n in ast.walk(fn):
+                tgts, val = [], None
+                if isinstance(n, ast.Assign):
+                    tgts, val = n.targets, n.value
+                elif isinstance(n, (ast.AugAssign, ast.AnnAssign)):
+                    tgts, val = [n.target], n.value
+                elif isinstance(n, ast.NamedExpr):
+                    tgts, val = [n.target], n.value
+                elif isinstance(n, (ast.For, ast.comprehension)):
+                    tgts, val = [n.target], n.iter
+                elif isinstance(n, ast.withitem) and n.optional_vars is not None:
+                    tgts, val = [n.optional_vars], n.context_expr
+                if val is not None and names_in(val) & tainted:
+                    for t in tgts:
+                        for nm in names_in(t):
+                            if nm not in tainted:
+                                tainted.add(nm)
+                                changed = True
+        if "lock" in tainted:
+            probs.append("%s: `lock` is derived from the accumulators" % fn.name)
+
+        def visit(node, locked):
+            if isinstance(node, ast.With):
+                is_lock = any(isinstance(it.context_expr, ast.Name) and it.context_expr.id == "lock" and it.optional_vars is None for it in node.items)
+                for it in node.items:
+                    visit(it.context_expr, locked)
+                for b in node.body:
+                    visit(b, locked or is_lock)
+                return
+            if isinstance(node, (ast.FunctionDef, ast.AsyncFunctionDef, ast.Lambda, ast.ClassDef)) and node is not fn:
+                probs.append("%s: nested function / class at line %d (unrecognised shape)" % (fn.name, node.lineno))
+                return
+            if isinstance(node, ast.Name):
+                if node.id in tainted and not locked:
+                    probs.append("%s line %d: `%s` (shared accumulator) is used outside `with lock:`" % (fn.name, node.lineno, node.id))
+                if node.id == "lock" and isinstance(node.ctx, (ast.Store, ast.Del)):
+                    probs.append("%s line %d: `lock` is rebound" % (fn.name, node.lineno))
+            if isinstance(node, (ast.Global, ast.Nonlocal)):
+                probs.append("%s line %d: global / nonlocal state" % (fn.name, node.lineno))
+            for ch in ast.iter_child_nodes(node):
+                visit(ch, locked)
+
+        for st in fn.body:
+            visit(st, False)
+        return probs
+
+    for caller in [n for n in ast.walk(tree) if isinstance(n, ast.FunctionDef)]:
+        for call in [n for n in ast.walk(caller) if isinstance(n, ast.Call)]:
+            # Parallel(...)( generator ) : the outer call's func is itself a call of Parallel
+            if not (isinstance(call.func, ast.Call) and isinstance(call.func.func, (ast.Name, ast.Attribute))
+                    and (getattr(call.func.func, "id", None) or getattr(call.func.func, "attr", None)) == "Parallel"):
+                continue
+            info["parallel_sites"] += 1
+            where = "%s line %d" % (caller.name, call.lineno)
+            if caller.name not in funcs or funcs[caller.name] is not caller:
+                problems.append("%s: Parallel call in a nested function / method (unrecognised shape)" % where)
+                continue
+            kw = {k.arg: k.value for k in call.func.keywords}
+            if not (isinstance(kw.get("require"), ast.Constant) and kw["require"].value == "sharedmem"):
+                problems.append("%s: Parallel without require='sharedmem'" % where)
+            if len(call.args) != 1 or not isinstance(call.args[0], ast.GeneratorExp):
+                problems.append("%s: argument of Parallel(...) is not one generator expression" % where)
+                continue
+            elt = call.args[0].elt
+            if not (isinstance(elt, ast.Call) and isinstance(elt.func, ast.Call) and isinstance(elt.func.func, ast.Name) and elt.func.func.id == "delayed"
+                    and len(elt.func.args) == 1 and isinstance(elt.func.args[0], ast.Name) and not elt.func.keywords):
+                problems.append("%s: job is not `delayed(<function name>)(...)`" % where)
+                continue
+            wname = elt.func.args[0].id
+            if wname not in funcs:
+                problems.append("%s: worker `%s` is not a module-level function of forest.py" % (where, wname))
+                continue
+            w = funcs[wname]
+            wp = check_worker(w)
+            problems += wp
+            # the lock handed to the workers
+            params = [a.arg for a in w.args.posonlyargs + w.args.args]
+            lock_arg = None
+            if any(isinstance(a, ast.Starred) for a in elt.args) or any(k.arg is None for k in elt.keywords):
+                problems.append("%s: * / ** arguments in the job call" % where)
+                continue
+            if "lock" in params and params.index("lock") < len(elt.args):
+                lock_arg = elt.args[params.index("lock")]
+            for k in elt.keywords:
+                if k.arg == "lock":
+                    lock_arg = k.value
+            if not isinstance(lock_arg, ast.Name):
+                problems.append("%s: the lock argument is not a plain name" % where)
+                continue
+            gen_targets = set()
+            for g in call.args[0].generators:
+                gen_targets |= names_in(g.target)
+            if lock_arg.id in gen_targets:
+                problems.append("%s: the lock varies with the loop variable" % where)
+            binds = [n for n in ast.walk(caller) if isinstance(n, (ast.Assign, ast.AugAssign, ast.AnnAssign, ast.NamedExpr, ast.For, ast.withitem, ast.comprehension))
+                     and lock_arg.id in names_in(getattr(n, "targets", None) and ast.Tuple(elts=list(n.targets), ctx=ast.Store()) or getattr(n, "target", None) or getattr(n, "optional_vars", None) or ast.Tuple(elts=[], ctx=ast.Store()))]
+            okbind = (len(binds) == 1 and isinstance(binds[0], ast.Assign) and len(binds[0].targets) == 1 and isinstance(binds[0].targets[0], ast.Name)
+                      and isinstance(binds[0].value, ast.Call) and not binds[0].value.args and not binds[0].value.keywords
+                      and isinstance(binds[0].value.func, ast.Attribute) and isinstance(binds[0].value.func.value, ast.Name)
+                      and binds[0].value.func.value.id == "threading" and binds[0].value.func.attr in ("Lock", "RLock")
+                      and binds[0] in caller.body and binds[0].lineno < call.lineno
+                      and lock_arg.id not in [a.arg for a in caller.args.args + caller.args.kwonlyargs])
+            if not okbind:
+                problems.append("%s: `%s` is not bound exactly once, at the top level of %s, to threading.Lock() before the Parallel call" % (where, lock_arg.id, caller.name))
+            if not wp:
+                info["certified"].append("%s -> %s" % (caller.name, wname))
+    # any other use of threads in the module is outside what the certificate understands
+    for n in ast.walk(tree):
+        if isinstance(n, ast.Attribute) and isinstance(n.value, ast.Name) and n.value.id == "threading" and n.attr not in ("Lock", "RLock"):
+            problems.append("line %d: threading.%s (unrecognised shape)" % (n.lineno, n.attr))
+    return (not problems), problems, info
+
+
+def stress_forest(case):
+    from deephyper.skopt.learning import ExtraTreesRegressor, RandomForestRegressor
+
+    rs = np.random.RandomState(case["seed"])
+    n = case["n_train"]
+    Xtr = rs.uniform(-1, 1, size=(n, 1))
+    ytr = 3.0 + np.sin(3 * Xtr[:, 0]) + 0.3 * rs.randn(n)
+    kw = dict(n_estimators=case["trees"], min_samples_split=10, bootstrap=True, min_variance=1e-3, random_state=case["seed"], n_jobs=1)
+    f = (RandomForestRegressor(splitter="random", **kw) if case["cls"] == "RF" else ExtraTreesRegressor(**kw)).fit(Xtr, ytr)
+    Xq = rs.uniform(-1, 1, size=(case["rows"], 1))
+    return f, Xq
+
+
+def check_lock(case):
+    """type=cert: the static certificate (a break is a correspondence break: the atomic-sum model no longer describes the code).
+    type=stress: many cheap trees, a LARGE query array, n_jobs in case['n_jobs'], several rounds.  Rows are SELECTED in numpy (where
+    the threaded answer is farthest from the sequential one, plus fixed rows); the verdict on the selected rows is the Coq oracles'
+    (property clauses on the threaded observation against the oracle read from estimators_, ok_same against n_jobs=1)."""
+    if case.get("type") == "cert":
+        ok, problems, info = lock_certificate()
+        res = dict(ok=True, kind="corr", clause="", sig={}, nontrivial=True, desc=["certificate", "parallel_sites=%d" % info["parallel_sites"]] + ["certified:" + c for c in info["certified"]])
+        if not ok:
+            return dict(res, ok=False, clause="lock_certificate", detail=dict(problems=problems, info=info,
+                        note="an update of the shared accumulators is not certified atomic: the sum-over-trees model (C18_order_irrelevant, C18_chunks_irrelevant) "
+                             "does not describe the code for n_jobs > 1; a stress search for a failing input follows"))
+        return res
+    sig = dict(cls=case["cls"])
+    res = dict(ok=True, kind="oracle", clause="", sig=sig, nontrivial=True, desc=["stress", "rows=%d" % case["rows"], "trees=%d" % case["trees"]])
+    m = model()
+    with warnings.catch_warnings():
+        warnings.simplefilter("ignore")
+        f, Xq = stress_forest(case)
+        ob1 = observe(f, Xq)
+        if isinstance(ob1, str):
+            return dict(res, ok=False, clause=ob1, detail="n_jobs=1")
+        fixed = list(range(0, len(Xq), max(1, len(Xq) // 8)))[:8]
+        minv = float(f.min_variance)
+        for nj in case["n_jobs"]:
+            f.n_jobs = nj
+            for rnd in range(case["rounds"]):
+                ob = observe(f, Xq)
+                if isinstance(ob, str):
+                    return dict(res, ok=False, clause=ob, detail="n_jobs=%s" % nj)
+                sel = set(fixed)
+                for a, b in zip(ob[0] + ob[1], ob1[0] + ob1[1]):
+                    dlt = np.abs(a - b)
+                    dlt[~np.isfinite(dlt)] = np.inf
+                    sel.add(int(np.argmax(dlt)))
+                sel = sorted(sel)
+                Xs = Xq[sel]
+                M, V = oracle_trees(f, Xs)
+                T = M.shape[0]
+                obs_s = ([a[sel] for a in ob[0]], [a[sel] for a in ob[1]])
+                ob1_s = ([a[sel] for a in ob1[0]], [a[sel] for a in ob1[1]])
+                fin = [float(v) for o_ in (obs_s, ob1_s) for a in o_[0] + o_[1] for v in a if math.isfinite(v)]
+                k = common_scale(list(M.ravel()) + fin, list(V.ravel()) + [minv])
+                trees = [[[to_int(M[t, j], k), to_int(V[t, j], 2 * k)] for t in range(T)] for j in range(len(sel))]
+                enc = lambda o_, j: [[opt_int(a[j], k) for a in o_[0]], [opt_int(a[j], k) for a in o_[1]]]
+                minv_i = to_int(minv, 2 * k)
+                for name, o_ in (("n_jobs=1", ob1_s), ("n_jobs=%s" % nj, obs_s)):
+                    arg = [EPS_M, EPS_V, minv_i, [[trees[j]] + enc(o_, j) for j in range(len(sel))]]
+                    okb, out = m.call(F_OK, arg), m.call(F_CLAUSES, arg)
+                    for j in range(len(sel)):
+                        bad = first_false(CLAUSES, [bool(b) for b in out[j]])
+                        if bad is not None or not okb[j]:
+                            return dict(res, ok=False, clause=bad or "ok_C18", detail=dict(obs=name, round=rnd, row=sel[j], means=[float(a[j]) for a in o_[0]], stds=[float(a[j]) for a in o_[1]],
+                                                                                           sequential_means=[float(a[j]) for a in ob1_s[0]], sequential_stds=[float(a[j]) for a in ob1_s[1]]))
+                same = m.call(F_SAME, [EPS_M, EPS_V, minv_i, [[trees[j]] + enc(ob1_s, j) + enc(obs_s, j) for j in range(len(sel))]])
+                if not all(same):
+                    j = [bool(b) for b in same].index(False)
+                    return dict(res, ok=False, clause="n_jobs", detail=dict(n_jobs=nj, round=rnd, row=sel[j], sequential=[float(a[j]) for a in ob1_s[0] + ob1_s[1]], threaded=[float(a[j]) for a in obs_s[0] + obs_s[1]]))
+        f.n_jobs = 1
+    return res
+
+
+def gen_lock(rng, tier):
+    if tier == "search":   # after a broken certificate: heavier, longer
+        for i in range(12):
+            yield dict(type="stress", cls="RF" if i % 2 == 0 else "ET", trees=50, rows=600000, n_train=40, n_jobs=[4, 8], rounds=6, seed=rng.randrange(2 ** 31))
+    else:
+        yield dict(type="cert")
+        yield dict(type="stress", cls="RF", trees=50, rows=300000, n_train=40, n_jobs=[4, 8], rounds=2 if tier != "thorough" else 10, seed=rng.randrange(2 ** 31))
+        if tier == "thorough":
+            yield dict(type="stress", cls="ET", trees=50, rows=600000, n_train=40, n_jobs=[4, 8], rounds=10, seed=rng.randrange(2 ** 31))
+
+
 # ---------------------------------------------------------------- robustness against infrastructure noise
 ATTEMPT_S = 90
 
@@ -730,6 +978,7 @@ def streams(tier):
     except Exception:
         pass  # the checks import again and report the exception
     return [
+        Stream("lock_certificate", gen_lock, robust(check_lock), None, parallel=False, timeout=3 * ATTEMPT_S),
         Stream("forest_predict", gen_predict(6000 if th else 400), robust(check_predict), shrink, timeout=3 * ATTEMPT_S),
         Stream("acq_d", gen_acq(2500 if th else 120), robust(check_acq), shrink, timeout=3 * ATTEMPT_S),
         Stream("forest_session", gen_session(1500 if th else 120), robust(check_session), shrink_session, timeout=3 * ATTEMPT_S),
